@@ -10,7 +10,7 @@ Definition std_with (w : bstr) : bool :=
 
 Definition k_link := bs "link". Definition k_max := bs "max".
 Definition k_tag := bs "tag".   Definition k_tags := bs "tags".
-Definition k_hdr := bs "hdr".
+Definition k_hdr := bs "hdr".   Definition k_orig := bs "orig".
 
 Definition field_ok (e : bstr * cval) : bool :=
   let '(k, v) := e in
@@ -19,6 +19,7 @@ Definition field_ok (e : bstr * cval) : bool :=
   else if beq k k_tag then match v with VStr _ => true | _ => false end
   else if beq k k_tags then match v with VList _ => true | _ => false end
   else if beq k k_hdr then match v with VMap _ => true | _ => false end
+  else if beq k k_orig then match v with VLink _ | VNull => true | _ => false end   (* a nullable field *)
   else false.
 
 Fixpoint nodup_keys (m : cmap) : bool :=
@@ -29,7 +30,7 @@ Definition cget (k : bstr) (m : cmap) : option cval := slookup k m.
 (* the typed caveats keep the four fields in a fixed order (Cav.ToIPLD) *)
 Definition normalize (m : cmap) : cmap :=
   filter_map (fun k => match cget k m with Some v => Some (k, v) | None => None end)
-             [k_link; k_max; k_tag; k_tags; k_hdr].
+             [k_link; k_max; k_tag; k_tags; k_hdr; k_orig].
 
 Definition std_nb (n : nbv) : option cmap :=
   match n with
@@ -54,6 +55,10 @@ Definition std_derives (c d : cap) : bool :=
   match cget k_tags (nb d) with
   | Some (VList dl) => match cget k_tags (nb c) with Some (VList cl) => subsetb cl dl | _ => false end
   | Some _ => false
+  | None => true end &&
+  (* orig: whatever the delegation wrote — a link or an explicit null — the claim must state the same *)
+  match cget k_orig (nb d) with
+  | Some dv => match cget k_orig (nb c) with Some cv => cval_eqb cv dv | None => false end
   | None => true end &&
   match cget k_hdr (nb d) with
   | Some (VMap dm) => match cget k_hdr (nb c) with
